@@ -401,6 +401,18 @@ def find_cells(fnode):
                             mutated.add(r.id)
                     elif isinstance(n, ast.AugAssign) and isinstance(x, ast.Name) and not _is_loop_var(fnode, x.id):
                         mutated.add(x.id)
+    # a local that is only an alias of (a part of) another local - `row = table[key]` - hands its mutations on to that local
+    changed = True
+    while changed:
+        changed = False
+        for n in _walk_own(fnode):
+            if isinstance(n, ast.Assign) and len(n.targets) == 1 and isinstance(n.targets[0], ast.Name) and n.targets[0].id in mutated:
+                r = n.value
+                while isinstance(r, (ast.Subscript, ast.Attribute)):
+                    r = r.value
+                if isinstance(r, ast.Name) and r is not n.value and r.id not in mutated and r.id not in params:
+                    mutated.add(r.id)
+                    changed = True
     cells = set()
     for name, bl in binds.items():
         if name in params and name not in mutated:
@@ -419,9 +431,17 @@ def find_cells(fnode):
             if not st:
                 continue
             inner = st[-1]
-            # bound inside loop `inner`: a cell if it is also bound or read outside that loop
+            # bound inside loop `inner`: a cell if it is also bound or read outside that loop - except for occurrences inside
+            # another loop whose own target binds the name (the same spelling re-used for an unrelated variable: every read
+            # there sees that loop's binding)
             for st2, nd2 in bl + reads.get(name, []):
                 if inner not in st2:
+                    if any(lp is not inner and lp not in st and isinstance(lp, (ast.For, ast.AsyncFor))
+                           and any(isinstance(x, ast.Name) and x.id == name for x in ast.walk(lp.target)) for lp in st2):
+                        continue
+                    if len(st) == 1 and isinstance(inner, (ast.For, ast.AsyncFor)) and any(nd is x for x in ast.walk(inner.target)) \
+                            and nd2.lineno < inner.lineno:
+                        continue       # the target of a top-level loop re-binds the name: earlier occurrences are unrelated
                     cells.add(name)
                     break
             # or read in the loop before (textually) its first binding there: loop-carried
@@ -569,18 +589,38 @@ class Summarizer:
 
     def emit(self, kind, text, st, node, lhs=None, rhs=None, op=None):
         gs = []
+        asts = []
         for g in st.guards:
             a = self.gast.get(g)
             if a is None:
                 gs.append(g)
             else:
-                for c in conjuncts(hoist(a)):
-                    t = canon(c)
-                    if t not in self.negof:
-                        nt = canon(neg_ast(c))
-                        self.negof[t] = nt
-                        self.negof.setdefault(nt, t)
-                    gs.append(t)
+                asts.extend(conjuncts(hoist(a)))
+        # unit propagation: with the conjunct A, the conjunct `not A or B` is B and the conjunct `A or B` is true
+        changed = True
+        while changed:
+            changed = False
+            atoms = {canon(c) for c in asts if not (isinstance(c, ast.BoolOp) and isinstance(c.op, ast.Or))} | set(gs)
+            for i, c in enumerate(asts):
+                if isinstance(c, ast.BoolOp) and isinstance(c.op, ast.Or):
+                    vals = list(c.values)
+                    if any(canon(v) in atoms for v in vals):
+                        asts.pop(i)
+                        changed = True
+                        break
+                    keep = [v for v in vals if canon(neg_ast(v)) not in atoms]
+                    if len(keep) != len(vals) and keep:
+                        rest = keep[0] if len(keep) == 1 else ast.BoolOp(op=ast.Or(), values=keep)
+                        asts[i:i + 1] = conjuncts(rest)
+                        changed = True
+                        break
+        for c in asts:
+            t = canon(c)
+            if t not in self.negof:
+                nt = canon(neg_ast(c))
+                self.negof[t] = nt
+                self.negof.setdefault(nt, t)
+            gs.append(t)
         self.effects.append(Effect(kind, text, gs, st.ctx, node, hoist(lhs), hoist(rhs), op))
 
     def _split(self, g):
@@ -1207,7 +1247,100 @@ def _fold_setdefault(effects):
                 new = Effect('call', canon(call), c.guards - {gpos}, c.ctx, c.node, recv, clone(x), meth)
                 out = [e for e in out if e is not c and e is not st] + [new]
                 break
+    # `if k not in D: D[k] = {}` followed by unconditional updates of D[k]  ->  updates of `D.setdefault(k, {})`
+    for st in list(out):
+        if st.kind != 'store' or st.op != '=' or not isinstance(st.lhs, ast.Subscript):
+            continue
+        v = st.rhs
+        if isinstance(v, ast.Dict) and not v.keys:
+            empty = '{}'
+        elif isinstance(v, ast.List) and not v.elts:
+            empty = '[]'
+        elif isinstance(v, ast.Call) and isinstance(v.func, ast.Name) and v.func.id == 'set' and not v.args:
+            empty = 'set()'
+        else:
+            continue
+        d, k = canon(st.lhs.value), canon(st.lhs.slice)
+        gneg = f'{k} not in {d}'
+        if gneg not in st.guards:
+            continue
+        slot = f'{d}[{k}]'
+        users = [c for c in out if c is not st and c.kind in ('store', 'aug', 'call') and c.lhs is not None and c.ctx == st.ctx
+                 and c.guards == st.guards - {gneg}
+                 and (canon(c.lhs) == slot or canon(c.lhs).startswith(slot + '[') or canon(c.lhs).startswith(slot + '.'))]
+        if not users:
+            continue
+        recv = ast.parse(f'D.setdefault(K, {empty})', mode='eval').body
+        recv.func.value = clone(st.lhs.value)
+        recv.args[0] = clone(st.lhs.slice)
+
+        class R(ast.NodeTransformer):
+            def visit_Subscript(self, node):
+                if canon(node) == slot:
+                    return clone(recv)
+                return self.generic_visit(node)
+        news = []
+        for c in users:
+            lhs2 = R().visit(clone(c.lhs))
+            if c.kind == 'call':
+                text = c.text.replace(slot, canon(recv), 1) if c.text.startswith(slot) else None
+                if text is None:
+                    news = None
+                    break
+                news.append(Effect('call', text, c.guards, c.ctx, c.node, lhs2, c.rhs, c.op))
+            else:
+                news.append(Effect(c.kind, f'{canon(lhs2)} {c.op} {canon(c.rhs)}', c.guards, c.ctx, c.node, lhs2, c.rhs, c.op))
+        if news is None:
+            continue
+        keep = [e for e in out if e is not st and not any(e is c for c in users)]
+        out = keep + news
     return out
+
+
+def _unit_propagate(asts):
+    """conjuncts (ASTs) simplified by unit propagation; None when contradictory"""
+    asts = list(asts)
+    changed = True
+    while changed:
+        changed = False
+        atoms = {canon(c) for c in asts if not (isinstance(c, ast.BoolOp) and isinstance(c.op, ast.Or))}
+        for c in asts:
+            if canon(neg_ast(c)) in atoms and not (isinstance(c, ast.BoolOp) and isinstance(c.op, ast.Or)):
+                return None
+        for i, c in enumerate(asts):
+            if isinstance(c, ast.BoolOp) and isinstance(c.op, ast.Or):
+                vals = list(c.values)
+                if any(canon(v) in atoms for v in vals):
+                    asts.pop(i)
+                    changed = True
+                    break
+                keep = [v for v in vals if canon(neg_ast(v)) not in atoms]
+                if not keep:
+                    return None
+                if len(keep) != len(vals):
+                    rest = keep[0] if len(keep) == 1 else ast.BoolOp(op=ast.Or(), values=keep)
+                    asts[i:i + 1] = conjuncts(rest)
+                    changed = True
+                    break
+    return asts
+
+
+def decision_leaves(node):
+    """a (nested) conditional expression as its decision table: [(frozenset of condition texts, value text)], infeasible
+    branches dropped, conditions split into conjuncts and simplified by unit propagation - so that
+    `(a if m else b) if c else d`  and  `a if c and m else (b if c else d)`  give the same table."""
+    out = []
+
+    def walk(n, conds):
+        if isinstance(n, ast.IfExp):
+            for branch, test in ((n.body, n.test), (n.orelse, neg_ast(n.test))):
+                cs = _unit_propagate(conds + conjuncts(hoist(test)))
+                if cs is not None:
+                    walk(branch, cs)
+            return
+        out.append((frozenset(canon(c) for c in conds), canon(n)))
+    walk(node, [])
+    return sorted(out, key=lambda x: (sorted(x[0]), x[1]))
 
 
 _CACHE = {}
